@@ -11,6 +11,7 @@ import contextvars
 import functools
 import inspect
 import io
+import warnings
 
 from . import control_world as W
 from . import model, wmod
@@ -141,6 +142,10 @@ class Capture:
         self._cm = contextlib.ExitStack()
         self._cm.enter_context(contextlib.redirect_stdout(self.out))
         self._cm.enter_context(contextlib.redirect_stderr(self.err))
+        # the serving process shows every warning every time (`-W always`): whether a warning caused by a client's input
+        # reaches the server's stderr must not depend on what this process has seen before
+        self._cm.enter_context(warnings.catch_warnings())
+        warnings.simplefilter("always")
         return self
 
     def __exit__(self, *exc):
